@@ -494,3 +494,74 @@ Proof.
     assert (NM : marker <> lit_1) by (apply beq_neq; exact M1).
     destruct (off_inert_effects marker uv c ld period now tok NM e Hin) as [W' _]. congruence.
 Qed.
+
+(* ------------------------------------------------------ entry points *)
+
+(* MaybeChild-then-Start and Start alone do the same thing for every marker:
+   both reach the one child(), which is where the marker is rewritten *)
+Theorem program_run_eq e marker uv c mode ld period now tok :
+  program_run e marker uv c mode ld period now tok = start_run marker uv c mode ld period now tok.
+Proof.
+  destruct e; [reflexivity|]. unfold program_run, maybe_child_run, start_run.
+  destruct (beq marker lit_1) eqn:M1; [|reflexivity].
+  apply beq_eq in M1. subst marker. reflexivity.
+Qed.
+
+Theorem spawned_e_eq fuel : forall e marker uv c mode ld period now tok,
+  spawned_e fuel e marker uv c mode ld period now tok = spawned fuel marker uv c mode ld period now tok.
+Proof.
+  induction fuel as [|f IH]; intros; [reflexivity|].
+  cbn [spawned_e spawned]. rewrite program_run_eq.
+  remember (start_run marker uv c mode ld period now tok) as res eqn:Hres. clear Hres.
+  generalize (r_token res). intros tok'.
+  generalize (r_effects res). intros effs. clear res.
+  generalize marker. revert tok'.
+  induction effs as [|x r IHr]; intros tok' cur; [reflexivity|].
+  destruct x; try (apply IHr).
+  - rewrite IH, IHr. reflexivity.
+  - destruct (beq mode lit_on); [rewrite IH|]; rewrite IHr; reflexivity.
+Qed.
+
+(* whichever entry point ran child(): the environment marker is "2" from the
+   first effect on, for everything the sidecar starts *)
+Theorem child_marks_environment e uv c mode ld period now tok :
+  exists rest,
+    r_effects (program_run e lit_1 uv c mode ld period now tok) = ESetMarker2 :: rest /\
+    r_outcome (program_run e lit_1 uv c mode ld period now tok) = OChildExit /\
+    env_marker_after lit_1 (r_effects (program_run e lit_1 uv c mode ld period now tok)) = lit_2 /\
+    (forall pre post, rest = pre ++ post -> env_marker_after lit_1 (ESetMarker2 :: pre) = lit_2).
+Proof.
+  rewrite program_run_eq. eexists. split; [reflexivity|]. split; [reflexivity|]. split.
+  - unfold start_run. cbn [beq lit_1 N.eqb Pos.eqb andb child_run r_effects].
+    destruct (c_crash c), uv; reflexivity.
+  - intros pre post _. cbn [env_marker_after].
+    induction pre as [|x r IH]; [reflexivity|]. destruct x; exact IH.
+Qed.
+
+(* a process that finds marker "2" does nothing, whichever entry point *)
+Theorem marker2_inert e fuel uv c mode ld period now tok :
+  program_run e lit_2 uv c mode ld period now tok = mkR OReturned [] tok /\
+  spawned_e fuel e lit_2 uv c mode ld period now tok = [].
+Proof.
+  split; [rewrite program_run_eq; reflexivity|]. rewrite spawned_e_eq. apply spawned_marker2.
+Qed.
+
+Theorem spawned_e_shape fuel e marker uv c mode ld period now tok :
+  forall p, In p (spawned_e fuel e marker uv c mode ld period now tok) ->
+    (p_kind p = KSidecar /\ p_marker p = lit_1 /\ marker = [] /\ mode <> lit_off /\
+     launches c period now tok = true /\
+     (p_upload p = true -> uv = true \/
+        (c_upload c = true /\ token_state_allows period now tok = true)))
+    \/ (p_kind p = KDelegated /\ p_marker p = lit_2 /\ mode = lit_on).
+Proof. rewrite spawned_e_eq. apply spawned_shape. Qed.
+
+Theorem sidecars_bounded_e fuel e marker uv c mode ld period now tok :
+  (count is_sidecar (spawned_e fuel e marker uv c mode ld period now tok)
+   <= if beq marker [] then 1 else 0)%nat.
+Proof. rewrite spawned_e_eq. apply sidecars_bounded. Qed.
+
+Theorem oracle_accepts_model_e fuel e marker uv c mode ld period now tok :
+  let r := program_run e marker uv c mode ld period now tok in
+  start_ok marker uv c mode period now tok (token_created r) (fs_changed r)
+           (spawned_e fuel e marker uv c mode ld period now tok) = true.
+Proof. cbn zeta. rewrite spawned_e_eq, program_run_eq. apply oracle_accepts_model. Qed.
